@@ -1,8 +1,8 @@
 //! Terminal rendering logic
 use crate::{
-    Face, Glyph, Image, ImageHandler, KittyImageHandler, Position, Size, Surface, SurfaceMut,
+    Face, FaceAttrs, Glyph, Image, ImageHandler, KittyImageHandler, Position, Size, Surface, SurfaceMut,
     SurfaceMutView, SurfaceOwned, SurfaceView, Terminal, TerminalCaps, TerminalCommand,
-    TerminalEvent, TerminalSize, TerminalWaker,
+    TerminalEvent, TerminalSize, TerminalWaker, UnderlineStyle,
     decoder::{Decoder, TTYCommandDecoder, Utf8Decoder},
     encoder::{Encoder, TTYEncoder},
     error::Error,
@@ -396,8 +396,14 @@ impl TerminalRenderer {
                         }
                     }
                     pos.col += repeats;
-                    // erase if it is more efficient
-                    if repeats > 4 {
+                    // erase if it is more efficient, erased cells only get
+                    // the background color so it cannot replace spaces of the
+                    // face with attributes that are visible on empty cells
+                    let attrs = new.face.attrs;
+                    let erasable = attrs.underline() == UnderlineStyle::None
+                        && !attrs.contains(FaceAttrs::REVERSE)
+                        && !attrs.contains(FaceAttrs::STRIKE);
+                    if repeats > 4 && erasable {
                         // NOTE: erase is not moving cursor
                         term.execute(TerminalCommand::EraseChars(repeats))?;
                     } else {
